@@ -15,8 +15,17 @@
      keys_unique         node keys are the keys of a Go map
      well_nested         sub graph references point forward in the forest (finite nesting)
      uniform             all values of one Option have one Go type (guaranteed by the typed
-                         constructors; WithLambdaOption(...any) can violate it) *)
-From Eino Require Import Base.Util Model.Options Model.OptionsSpec Proofs.Options.
+                         constructors; WithLambdaOption(...any) can violate it)
+     handler_addressed   the option is undesignated, or one of its designated paths is the node
+                         itself or a graph node above it
+     resume_call F opts c  (Model/OptionsResume.v) one call of a session on a checkpoint id: c is
+                         what the checkpoint store holds (None: the run starts from START; Some:
+                         the tasks waiting in the checkpoint are rebuilt by restoreTasks, nested
+                         checkpoints are forwarded to the sub graphs interrupted inside, every
+                         later task is built by createTasks); F's n_runs are the nodes that
+                         execute in this call *)
+From Eino Require Import Base.Util Model.Options Model.OptionsSpec Model.OptionsResume
+  Proofs.Options Proofs.OptionsResume.
 Local Open Scope N_scope.
 
 (* ---- delivered_iff_addressed ------------------------------------------------------- *)
@@ -60,6 +69,58 @@ Theorem bad_designation_errors :
      exists o q, In o opts /\ In q (o_paths o) /\ bad_path F o 0 q = true).
 Proof. exact run_call_fails_iff. Qed.
 Print Assumptions bad_designation_errors.
+
+(* ---- callbacks_only_where_designated ------------------------------------------------ *)
+(* The handlers in the callback manager of any executing node (the top-level graph, a graph
+   node, a component at any depth) are exactly the handlers of the options that address it:
+   undesignated ones, and ones designated to the node or to a graph node above it. A callback
+   designated to a node therefore applies there (and, for a graph node, inside it) and nowhere
+   else. *)
+Theorem callbacks_only_where_designated :
+  forall F opts rs r hs,
+    keys_unique F -> run_call F opts = Ok rs -> In r rs -> r_fired r = Some hs ->
+    forall h, In h hs <->
+              exists o, In o opts /\ In h (o_handlers o) /\ handler_addressed o (r_path r).
+Proof. exact run_call_fired. Qed.
+Print Assumptions callbacks_only_where_designated.
+
+(* ---- resume_delivers_same / no_leak_between_calls ----------------------------------- *)
+(* A call that re-enters the run from a checkpoint — whatever the checkpoint holds, at every
+   nesting depth — reports exactly what a call that starts fresh reports on the same set of
+   executing nodes with the same options: the checkpoint (all that survives of earlier calls)
+   has no influence on what is delivered. Hence every theorem above holds for resumed calls. *)
+Theorem resume_delivers_same :
+  forall F opts c, resume_call F opts c = run_call F opts.
+Proof. exact resume_call_eq. Qed.
+Print Assumptions resume_delivers_same.
+
+Theorem resume_delivered_iff_addressed :
+  forall F opts c rs r its,
+    keys_unique F -> resume_call F opts c = Ok rs -> In r rs -> r_items r = Some its ->
+    exists nd ty, executes F 0 (r_path r) = true /\ resolve F 0 (r_path r) = Some nd /\
+                  n_kind nd = KComp ty /\ its = spec_delivered opts (r_path r) ty /\
+                  Forall (fun it => fst it = ty) its.
+Proof. exact resume_call_delivered. Qed.
+Print Assumptions resume_delivered_iff_addressed.
+
+Theorem resume_delivered_iff_addressed_complete :
+  forall F opts c rs p nd ty,
+    keys_unique F -> resume_call F opts c = Ok rs ->
+    resolve F 0 p = Some nd -> n_kind nd = KComp ty -> executes F 0 p = true ->
+    exists r, In r rs /\ r_path r = p /\ r_items r = Some (spec_delivered opts p ty).
+Proof. exact resume_call_delivered_complete. Qed.
+Print Assumptions resume_delivered_iff_addressed_complete.
+
+(* Nothing reaches a node that this call's options do not contain: every option value a node
+   receives and every handler in its callback manager belongs to an option passed to THIS
+   call — also when the call resumes a run that earlier calls (with other options) started. *)
+Theorem no_leak_between_calls :
+  forall F opts c rs r,
+    keys_unique F -> resume_call F opts c = Ok rs -> In r rs ->
+    (forall its it, r_items r = Some its -> In it its -> exists o, In o opts /\ In it (o_items o)) /\
+    (forall hs h, r_fired r = Some hs -> In h hs -> exists o, In o opts /\ In h (o_handlers o)).
+Proof. exact resume_call_no_leak. Qed.
+Print Assumptions no_leak_between_calls.
 
 (* ---- non-vacuity -------------------------------------------------------------------- *)
 Definition exF : forest :=
@@ -115,3 +176,43 @@ Proof.
   - intros a. vm_compute. discriminate.
   - intros H. eapply H. vm_compute. reflexivity.
 Qed.
+
+(* handlers: designated to a component, to a graph node (fires inside it too), undesignated *)
+Definition exCb : list copt :=
+  [ mkOpt [] [7] [];             (* undesignated: everywhere *)
+    mkOpt [] [8] [[2; 3]];       (* designated to 2/3: only there *)
+    mkOpt [] [9] [[2]] ].        (* designated to graph node 2: there and inside *)
+Example fired_example :
+  run_call exF exCb =
+  Ok [ mkRep [] None (Some [7]);
+       mkRep [1] (Some []) (Some [7]);
+       mkRep [2] None (Some [7; 9]);
+       mkRep [2; 1] (Some []) (Some [7; 9]);
+       mkRep [2; 3] (Some []) (Some [7; 9; 8]);
+       mkRep [3] (Some []) None ].
+Proof. vm_compute. reflexivity. Qed.
+
+(* a session: the first call was interrupted inside graph node 2 after node 2/1 (the checkpoint
+   holds the task of graph node 2 with a nested checkpoint holding the task of 2/3); the
+   resuming call executes 2/3 only, and 2/3 gets this call's options *)
+Definition exF2 : forest :=
+  [ [mkNode 1 (KComp 6) true false; mkNode 2 (KSub 1%nat) true true; mkNode 3 (KComp 0) false false];
+    [mkNode 1 (KComp 6) true false; mkNode 3 (KComp 7) true true; mkNode 4 (KSub 2%nat) true false];
+    [mkNode 1 (KComp 6) true true] ].
+Definition exCk : option ckpt := Some (Ckpt [2] [(2, Ckpt [3] [])]).
+Example resume_example :
+  resume_call exF2 exOpts exCk =
+  Ok [ mkRep [] None (Some []);
+       mkRep [2] None (Some []);
+       mkRep [2; 3] (Some [(7, 104); (7, 104)]) (Some []) ].
+Proof. vm_compute. reflexivity. Qed.
+
+(* the theorems are sensitive to the restore path: a restoreTasks that builds the task of a
+   re-entered sub graph without its options (the planted regression) delivers nothing there *)
+Example resume_sensitivity :
+  resume_call_gen true exF2 exOpts exCk =
+  Ok [ mkRep [] None (Some []);
+       mkRep [2] None (Some []);
+       mkRep [2; 3] (Some []) (Some []) ] /\
+  resume_call_gen true exF2 exOpts exCk <> run_call exF2 exOpts.
+Proof. split; [vm_compute; reflexivity|vm_compute; discriminate]. Qed.
